@@ -164,9 +164,9 @@ theorem late_exit_error_witness :
     let e1 : EntryOp := { id := 1, res := "x1", inbound := false, batch := 1, args := [], chain := {} }
     let e2 : EntryOp := { id := 2, res := "x2", inbound := false, batch := 1, args := [], chain := {} }
     let p := EntryPool.runR false 1000 [((1000, .entry e2), 0), ((1000, .exit 1 none), 0), ((1000, .entry e1), 0)]
-    EntryPool.obsCtx p 2 = some (none, []) ∧
-    EntryPool.obsCtx (EntryPool.apiTrace p 1 (some "late")) 2 = some (none, []) ∧
-    EntryPool.obsCtx (EntryPool.apiTraceUnguarded p 1 (some "late")) 2 = some (some "late", []) := by
+    EntryPool.obsCtx p 2 = some (none, e2) ∧
+    EntryPool.obsCtx (EntryPool.apiTrace p 1 (some "late")) 2 = some (none, e2) ∧
+    EntryPool.obsCtx (EntryPool.apiTraceUnguarded p 1 (some "late")) 2 = some (some "late", e2) := by
   decide
 
 /-! ## (2) corollaries: what the ledger says, hence what the model does
